@@ -27,6 +27,7 @@ Var(x)  == [k |-> "var", name |-> x]
 Inf(op, l, r) == [k |-> "infix", op |-> op, l |-> l, r |-> r]
 P(n, d) == [k |-> "portion", n |-> n, d |-> d]
 Rem     == [k |-> "remaining"]
+Str_(x) == [k |-> "str", v |-> x]
 
 Leaves == { [k |-> "acct", e |-> Acc("a")], [k |-> "acct", e |-> Acc("world")],
             [k |-> "ovdu", e |-> Acc("b")], [k |-> "ovd", e |-> Acc("b"), b |-> Mon(5)] }
@@ -87,7 +88,14 @@ PosProgs == {[vars |-> AllDecls, stmts |-> <<st>>] : st \in PosStmts}
        \cup {[vars |-> OriginDecls, stmts |-> <<Send(FALSE, Var("bal"), LeafL("a"), Dst), [k |-> "call", name |-> "set_tx_meta", args |-> <<Var("k"), Var("od")>>]>>]}
        \cup {[vars |-> <<>>, stmts |-> <<st>>] : st \in PosStmts}        \* the same with nothing declared: every use is unbound
 
-Progs == IF Scope = "names" THEN NameProgs \cup PosProgs ELSE ShapeProgs \cup NameProgs \cup PosProgs
+\* ---- declaration order: an origin that uses a variable declared after it (unbound there), and the right order
+BalDecl == [type |-> "monetary", name |-> "bal", origin |-> [k |-> "call", name |-> "balance", args |-> <<Var("acc"), AstE(A)>>]]
+KeyDecl == [type |-> "string", name |-> "k", origin |-> [k |-> "call", name |-> "meta", args |-> <<Var("acc"), Str_("key")>>]]
+OrderStmt == Send(FALSE, Var("bal"), LeafV, Dst)
+OrderProgs == {[vars |-> ds, stmts |-> <<OrderStmt>>] : ds \in {<<BalDecl, D("account", "acc")>>, <<D("account", "acc"), BalDecl>>,
+                                                                 <<KeyDecl, BalDecl, D("account", "acc")>>, <<BalDecl, D("account", "acc"), KeyDecl>>}}
+
+Progs == IF Scope = "names" THEN NameProgs \cup PosProgs \cup OrderProgs ELSE ShapeProgs \cup NameProgs \cup PosProgs \cup OrderProgs
 VARIABLES phase, prog
 vars == <<phase, prog>>
 Init == phase = "pick" /\ prog = [vars |-> <<>>, stmts |-> <<>>]
